@@ -9,6 +9,7 @@
 #include "vm_sandbox.hpp"
 #include "trace.hpp"
 
+#include <cstring>
 #include <fstream>
 #include <iostream>
 #include <memory>
@@ -52,6 +53,19 @@ struct Owners
   alignas(AP) unsigned char store[NOWN][sizeof(AP)];
   bool exists[NOWN] = { false, false, false };
   AP& at(int i) { return *std::launder(reinterpret_cast<AP*>(store[i])); }
+  // Storage an owner is constructed into is recycled memory: it holds the byte image of another
+  // owner that is alive at this moment (or a non-zero pattern). A constructor initialises every
+  // member, so what the storage held before cannot matter.
+  void recycle(int j)
+  {
+    for (int k = 0; k < NOWN; k++) {
+      if (k != j && exists[k]) {
+        std::memcpy(store[j], store[k], sizeof(AP));
+        return;
+      }
+    }
+    std::memset(store[j], 0x5A, sizeof(AP));
+  }
 };
 
 static int own_idx(const std::string& s)
@@ -234,6 +248,7 @@ int main(int argc, char** argv)
         e.str("o", o).num("p", k);
         long long t = 0;
         try {
+          ow->recycle(i);
           new (ow->store[i]) AP(sb->get_app_pointer(ptr_of(k)));
           ow->exists[i] = true;
           t = (long long)ow->at(i).UNSAFE_sandboxed(*sb);
@@ -271,6 +286,7 @@ int main(int argc, char** argv)
         is >> o >> o2;
         int i = own_idx(o), j = own_idx(o2);
         e.str("o", o).str("o2", o2);
+        ow->recycle(j);
         new (ow->store[j]) AP(std::move(ow->at(i)));
         ow->exists[j] = true;
         e.str("out", "ok");
